@@ -75,6 +75,12 @@ func NewCheck(id, tier string) *Check {
 	for i := range c.distinct {
 		c.distinct[i] = map[uint64]struct{}{}
 	}
+	// replay files of earlier runs of this property are stale
+	if old, _ := filepath.Glob(filepath.Join(VerifDir, "replays", id+"-*.json")); len(old) > 0 && os.Getenv("VERIF_KEEP_REPLAYS") == "" {
+		for _, f := range old {
+			os.Remove(f)
+		}
+	}
 	b, err := os.ReadFile(filepath.Join(VerifDir, "known_findings.json"))
 	if err == nil {
 		var fs []Finding
@@ -159,22 +165,22 @@ func (c *Check) IsBroken() bool {
 // property. sig identifies the failure mode (compared against
 // known_findings.json), what is a human-readable account, replay is the
 // vector that reproduces it.
-func (c *Check) Violation(sig, what string, replay any) {
+func (c *Check) Violation(sig, what string, replay any) (known bool) {
 	c.mu.Lock()
 	defer c.mu.Unlock()
 	if _, ok := c.known[sig]; ok {
 		c.knownHits[sig]++
-		return
+		return true
 	}
 	v, ok := c.violations[sig]
 	if ok {
 		v.Count++
-		return
+		return false
 	}
 	v = &violation{Sig: sig, What: what, Count: 1}
 	c.violations[sig] = v
 	if c.ReplayMode {
-		return
+		return false
 	}
 	h := sha1.Sum([]byte(sig))
 	name := fmt.Sprintf("%s-%s.json", c.ID, hex.EncodeToString(h[:5]))
@@ -184,6 +190,7 @@ func (c *Check) Violation(sig, what string, replay any) {
 	b, _ := json.MarshalIndent(map[string]any{"property": c.ID, "signature": sig, "what": what, "vector": replay, "tier": c.Tier, "seed": c.Seed}, "", " ")
 	os.WriteFile(path, b, 0o644)
 	v.Replay = path
+	return false
 }
 
 func (c *Check) NumViolations() int {
